@@ -157,21 +157,52 @@ Proof.
 Qed.
 Print Assumptions length_counts_runes.
 
-(* goa's reading agrees with the property's on acceptance wherever none of the three
-   recorded findings applies: no attribute carries both exclusive bounds (or the template
-   no longer leaks isExclMin), every array / map with a positive minimum length sits in a
-   required position, and every Validate call goa elides is vacuous *)
+(* when codegen.hasValidations answers false for a user type in a Pointer context (server
+   request bodies, client response bodies), the Validate call goa does not emit would have
+   found nothing: no value of that type violates anything, at any depth. (The walk's seen
+   set is closed and quiet, and its bound on nested entries, hv_fuel, is never reached.) *)
+Theorem has_validations_false_sound :
+  forall (fmt_ok pat_ok : nat -> str -> bool) E c id,
+    c_ptr c = true -> has_validations E c id = false ->
+    forall n x, spec_user fmt_ok pat_ok E n id x = [].
+Proof. intros fmt_ok pat_ok E c id Hc H n x. exact (elide_vacuous fmt_ok pat_ok E c Hc id n x H). Qed.
+Print Assumptions has_validations_false_sound.
+
+(* REPAIRED (map-value-required-only-unvalidated, map-nested-collection-required-only-
+   unvalidated): below an array and below a map, every child that is not a primitive - user
+   types, objects, arrays, maps - is validated in the context of its parent; only primitive
+   elements / keys / values are switched to the non-pointer layout. Stated unconditionally:
+   it stops compiling when recurseValidationCode no longer has the repaired shape
+   (map_ctx_mode is read from the source by the translator) *)
+Theorem collection_children_keep_context :
+  forall c a, is_prim a = false -> map_ctx c a = c /\ elem_ctx c a = c.
+Proof.
+  intros c a Ha. split.
+  - unfold map_ctx. destruct a; try reflexivity; discriminate.
+  - unfold elem_ctx. now rewrite Ha, andb_false_r.
+Qed.
+Print Assumptions collection_children_keep_context.
+
+(* goa's reading agrees with the property's on acceptance wherever neither of the two
+   recorded findings applies: no attribute carries both exclusive bounds (or the template no
+   longer leaks isExclMin), and every array / map with a positive minimum length sits in a
+   required position. No hypothesis on elided Validate calls is left: in Pointer contexts
+   (c_ptr fc, c_ptr c) they are vacuous (has_validations_false_sound), and an attribute
+   without user types (parameters, headers, cookies) has none *)
 Theorem goa_eq_spec_partial :
   forall (fmt_ok pat_ok : nat -> str -> bool) E fc,
-    wf_env E = true -> env_excl_ok E = true -> env_pm_ok E = true -> c_ignreq fc = false ->
-    (forall c id n x, has_validations E c id = false -> spec_user fmt_ok pat_ok E n id x = []) ->
+    wf_env E = true -> env_excl_ok E = true -> env_pm_ok E = true -> c_ignreq fc = false -> c_ptr fc = true ->
   forall n c rp a v,
-    c_ignreq c = false -> wf_att E a = true -> excl_ok E a = true -> pm_ok rp a = true -> (rp = true -> v <> VNull) ->
+    c_ignreq c = false -> (no_user a = true \/ c_ptr c = true) ->
+    wf_att E a = true -> excl_ok E a = true -> pm_ok rp a = true -> (rp = true -> v <> VNull) ->
     (violations_goa fmt_ok pat_ok E fc n c a v = [] <-> violations fmt_ok pat_ok E n a v = []).
-Proof. exact goa_iff_spec. Qed.
+Proof.
+  intros fmt_ok pat_ok E fc HE Hex Hpm Hfc Hfcp.
+  exact (goa_iff_spec fmt_ok pat_ok E fc HE Hex Hpm Hfc eq_refl Hfcp).
+Qed.
 Print Assumptions goa_eq_spec_partial.
 
-(* ---- the three places where goa's generated validation differs from the property *)
+(* ---- the two places where goa's generated validation differs from the property *)
 Definition oracle_true : nat -> str -> bool := fun _ _ => true.
 Definition vl_minlen (n : nat) : validation := mkV None None None None None None None (Some n) None.
 Definition vl_excl (m M : Q) : validation := mkV None None None (Some m) None (Some M) None None None.
@@ -217,31 +248,28 @@ Proof.
 Qed.
 Print Assumptions exclusive_maximum_dropped_refuted.
 
-(* REPAIRED (map-value-required-only-unvalidated): once recurseValidationCode keeps the
-   attribute context for user-type map keys / values (map_ctx_mode, read from the source,
-   is no longer MapClearAll), a map whose values are a user type with only a required string
-   is validated: the value lacking it is reported missing_field, exactly as the design says *)
+(* REPAIRED (map-value-required-only-unvalidated): a map whose values are a user type with
+   only a required string is validated: the value lacking it is reported missing_field,
+   exactly as the design says *)
 Definition env_ro : env := mkEnv [(0, AObject [(0, true, APrim no_validation false PString)])] [].
 
 Theorem map_value_user_type_validated :
-  map_ctx_mode <> MapClearAll ->
   let E := env_ro in let c := ctx_server_request in
   let a := AObject [(0, false, AMap no_validation (APrim no_validation false PString) (AUser 0))] in
   let v := VObj [VMap [(VStr [107%N], VObj [VNull])]] in
   has_validations E (map_ctx c (AUser 0)) 0 = true /\
   validate oracle_true oracle_true E c 3 c true a v = Some [(EMissingField, [PField 0])] /\
   violations oracle_true oracle_true E 3 a v = [(EMissingField, [PField 0])].
-Proof.
-  intro Hk. cbn zeta. split; [|split].
-  - unfold map_ctx. destruct map_ctx_mode; [congruence| |]; vm_compute; reflexivity.
-  - unfold validate. cbn [gen]. unfold map_ctx. destruct map_ctx_mode; [congruence| |]; vm_compute; reflexivity.
-  - vm_compute. reflexivity.
-Qed.
+Proof. cbn zeta. split; [|split]; vm_compute; reflexivity. Qed.
 Print Assumptions map_value_user_type_validated.
 
 Definition att_map_of_arrays : att :=
   AObject [(0, false, AMap no_validation (APrim no_validation false PString) (AArray no_validation (AUser 0)))].
 Definition val_map_of_arrays : value := VObj [VMap [(VStr [107%N], VArr [VObj [VNull]])]].
+Definition att_map_of_maps : att :=
+  AObject [(0, false, AMap no_validation (APrim no_validation false PString)
+                        (AMap no_validation (APrim no_validation false PString) (AUser 0)))].
+Definition val_map_of_maps : value := VObj [VMap [(VStr [107%N], VMap [(VStr [107%N], VObj [VNull])])]].
 
 Lemma wt_map_of_arrays : wt env_ro ctx_server_request ctx_server_request true att_map_of_arrays val_map_of_arrays.
 Proof.
@@ -251,39 +279,21 @@ Proof.
   apply wt_obj. apply wtf_cons; [apply wt_null; reflexivity|apply wtf_nil].
 Qed.
 
-(* FINDING map-nested-collection-required-only-unvalidated (what remains while arrays and
-   maps found below a map are validated with Pointer = false, i.e. until map_ctx_mode is
-   MapClearPrimOnly): a user type with only a required string met as ELEMENT OF AN ARRAY
-   THAT IS A MAP VALUE gets no Validate call (hasValidations is false there): the element
-   lacking the attribute violates `required`, the generated validation reports nothing *)
-Theorem map_nested_collection_required_only_refuted :
-  map_ctx_mode <> MapClearPrimOnly ->
-    wf_env env_ro = true /\ wf_att env_ro att_map_of_arrays = true /\
-    wt env_ro ctx_server_request ctx_server_request true att_map_of_arrays val_map_of_arrays /\
-    violations oracle_true oracle_true env_ro 3 att_map_of_arrays val_map_of_arrays = [(EMissingField, [PField 0])] /\
-    validate oracle_true oracle_true env_ro ctx_server_request 3 ctx_server_request true att_map_of_arrays val_map_of_arrays = Some [] /\
-    has_validations env_ro (set_ptr ctx_server_request false) 0 = false /\ has_validations env_ro ctx_server_request 0 = true.
-Proof.
-  intro Hk.
-  refine (conj _ (conj _ (conj _ (conj _ (conj _ (conj _ _)))))).
-  - reflexivity.
-  - reflexivity.
-  - exact wt_map_of_arrays.
-  - vm_compute. reflexivity.
-  - unfold validate, att_map_of_arrays. cbn [gen]. unfold map_ctx. destruct map_ctx_mode; [| |congruence]; vm_compute; reflexivity.
-  - vm_compute. reflexivity.
-  - vm_compute. reflexivity.
-Qed.
-Print Assumptions map_nested_collection_required_only_refuted.
-
-(* REPAIRED (map-nested-collection-required-only-unvalidated): when only primitive map keys /
-   values lose Pointer, the same value is reported missing_field *)
+(* REPAIRED (map-nested-collection-required-only-unvalidated): a user type with only a
+   required string met as ELEMENT OF AN ARRAY (or value of a map) THAT IS ITSELF A MAP VALUE
+   gets its Validate call: the element lacking the attribute is reported missing_field by
+   the generated code, as the design says *)
 Theorem map_nested_collection_validated :
-  map_ctx_mode = MapClearPrimOnly ->
+  wf_env env_ro = true /\ wf_att env_ro att_map_of_arrays = true /\
+  wt env_ro ctx_server_request ctx_server_request true att_map_of_arrays val_map_of_arrays /\
+  violations oracle_true oracle_true env_ro 3 att_map_of_arrays val_map_of_arrays = [(EMissingField, [PField 0])] /\
   validate oracle_true oracle_true env_ro ctx_server_request 3 ctx_server_request true att_map_of_arrays val_map_of_arrays
+    = Some [(EMissingField, [PField 0])] /\
+  violations oracle_true oracle_true env_ro 3 att_map_of_maps val_map_of_maps = [(EMissingField, [PField 0])] /\
+  validate oracle_true oracle_true env_ro ctx_server_request 3 ctx_server_request true att_map_of_maps val_map_of_maps
     = Some [(EMissingField, [PField 0])].
 Proof.
-  intro Hk. unfold validate, att_map_of_arrays. cbn [gen]. unfold map_ctx. rewrite Hk. vm_compute. reflexivity.
+  refine (conj _ (conj _ (conj _ (conj _ (conj _ (conj _ _)))))); try exact wt_map_of_arrays; vm_compute; reflexivity.
 Qed.
 Print Assumptions map_nested_collection_validated.
 
